@@ -1,0 +1,29 @@
+//go:build verif
+
+package plenccodec
+
+// Yield points used by the runtime-verification harness (build tag verif).
+const (
+	VerifYieldRegistryLoaded = iota
+	VerifYieldBeforeStore
+	VerifYieldStructField
+	VerifYieldStructFinish
+	VerifYieldInternMiss
+	VerifYieldMapScratch
+)
+
+var verifYieldFunc func(point int)
+
+// SetVerifYield installs f to be called at every yield point. Call it before
+// any goroutine uses plenc. It is read without synchronisation on purpose, so
+// the hook adds no happens-before edge.
+func SetVerifYield(f func(point int)) { verifYieldFunc = f }
+
+// VerifYield is called by instrumented code at yield points.
+func VerifYield(point int) {
+	if f := verifYieldFunc; f != nil {
+		f(point)
+	}
+}
+
+func verifYield(point int) { VerifYield(point) }
